@@ -75,7 +75,7 @@ func RandomScriptC16(rng *rand.Rand) tf.Script {
 		x := rng.Intn(100)
 		switch {
 		case x < 4:
-			steps = append(steps, tf.M{"e": "SetAllowed", "D": subsetOfDenoms(rng)})
+			steps = append(steps, tf.M{"e": "SetAllowed", "D": subsetOfDenoms(rng), "twice": rng.Intn(3) == 0})
 		case x < 16:
 			m := tf.M{"e": "Stake", "a": acct(), "d": []string{"d1", "d2"}[rng.Intn(2)], "n": 1 + rng.Intn(4)}
 			if huge && rng.Intn(3) == 0 {
@@ -346,7 +346,7 @@ func RandomScriptC07(rng *rand.Rand) tf.Script {
 		case x < 95:
 			steps = append(steps, tf.M{"e": "Redelegate", "a": acct(), "v": valRole(rng), "w": 1 + rng.Intn(3), "n": 1 + rng.Intn(3)})
 		default:
-			steps = append(steps, tf.M{"e": "SetAllowed", "D": [][]string{{"d1"}, {"d1", "d2"}, {"d2"}, {"d1", "d2"}}[rng.Intn(4)]})
+			steps = append(steps, tf.M{"e": "SetAllowed", "D": [][]string{{"d1"}, {"d1", "d2"}, {"d2"}, {"d1", "d2"}}[rng.Intn(4)], "twice": rng.Intn(4) == 0})
 		}
 	}
 	steps = append(steps, tf.M{"e": "EndBlock"}, tf.M{"e": "EndBlock"}, tf.M{"e": "EndBlock"})
